@@ -15,9 +15,9 @@ schema-qualified names, every option).
   the parts); `IF NOT EXISTS` free;
 * columns (`colOK`): the back-quoted name reads back (`nameOK`), ANY type word with no parameters or a parameter list of expression-fragment
   trees, each bracketed by the printer when above the compute level (integers in practice; any number of parameters — 0, 1, 2, …),
-  no `GENERATED` clause; for MySQL every attribute of
-  `prDefCol` in the printer's order: UNSIGNED, ZEROFILL, CHARACTER SET s, COLLATE s, NULL, NOT NULL, AUTO_INCREMENT, DEFAULT e, ON UPDATE e
-  (`e` any tree of the C02 expression fragment), COMMENT s; for the Hive rendering only COMMENT (the Hive printer writes nothing else:
+  for MySQL EVERY attribute of `prDefCol` in the printer's order: UNSIGNED, ZEROFILL, CHARACTER SET s, COLLATE s,
+  GENERATED ALWAYS AS (e) VIRTUAL|STORED, NULL, NOT NULL, AUTO_INCREMENT, DEFAULT e, ON UPDATE e (`e` any tree of the C02 expression
+  fragment, bracketed by the printer when above the compute level), COMMENT s; for the Hive rendering only COMMENT (the Hive printer writes nothing else:
   the other attributes must be unset — see `hiveProj` for tables that have them), and parameters only where the Hive printer keeps them;
 * MySQL: `PRIMARY KEY (cols)`, `UNIQUE KEY n (cols)`*, `KEY n (cols)`*, `FULLTEXT KEY n (cols)`* with prefix lengths `(n)`, `USING m`,
   `COMMENT s`, `KEY_BLOCK_SIZE=n`; options ENGINE, AUTO_INCREMENT, DEFAULT CHARSET, COLLATE, ROW_FORMAT, STATS_PERSISTENT, COMMENT;
@@ -256,13 +256,14 @@ def ddl1 : String :=
   "ENGINE=InnoDB AUTO_INCREMENT=0 DEFAULT CHARSET=utf8mb4 COLLATE=utf8mb4_bin ROW_FORMAT=DYNAMIC STATS_PERSISTENT=0 COMMENT='c, ''q'''"
 def ddl2 : String := "CREATE TABLE t (a int)"
 def ddl3 : String := "CREATE TABLE `t-1` (`x` char(1) COMMENT ',', y varchar(8) DEFAULT 'a,b')"
-def ddl5 : String := "CREATE TABLE t (a DECIMAL((1 = 1), 2) DEFAULT (1 OR 2), b enum('x','y,z') NOT NULL)"
+def ddl5 : String := "CREATE TABLE t (a DECIMAL((1 = 1), 2) DEFAULT (1 OR 2), b enum('x','y,z') NOT NULL, " ++
+  "g int GENERATED ALWAYS AS ((a OR 1)) VIRTUAL NOT NULL COMMENT 'g', h int GENERATED ALWAYS AS (a + 1) STORED)"
 def ddl4 : String := "CREATE TABLE db.t (`id` bigint(20) NOT NULL COMMENT 'pk', v DECIMAL(10,2) COMMENT 'v', w double, z tinyint(1)) COMMENT='tc'"
 
 #guard okMy ddl1 && okMy ddl2 && okMy ddl3 && okMy ddl4 && okMy ddl5
 -- a raw comment string that IS the comma token (no parse produces it) is outside the fragment (`segsOK`)
 #guard (match parseMy ddl2 with | some c => FragCreate .MYSQL c && !FragCreate .MYSQL { c with comment := some "=" , columns := c.columns.map fun x => { x with comment := some "," } } | none => false)
-#guard okConv ddl1 false && okConv ddl1 true && okConv ddl2 true && okConv ddl4 false && okConv ddl4 true
+#guard okConv ddl1 false && okConv ddl1 true && okConv ddl2 true && okConv ddl4 false && okConv ddl4 true && okConv ddl5 false
 
 /-- a Hive table with every Hive option, built from a converted table by the helpers -/
 def hiveFull : Option CreateTable :=
